@@ -282,4 +282,42 @@ def run(ctx, ck):
     ck.info('answers', n_ans)
     ck.info('answers_with_prompt_comment', n_doc)
     ck.floor('answers in BASIC input writers', n_ans, 60)
+    # media: an answer is written exactly when its prompt is asked; the report writer of the same
+    # class prints the same item under the same condition (sibling)
+    from ..fmt import Evaluator, template_text, arg_text
+    ck.rule('R-SIB.media-prompts', 'Medium: coordinate written iff there is a next medium, height iff a previous one')
+    want = {'self.coord': 'self.next', 'self.height': 'self.prev'}
+    for q in ('mininec.Medium.as_basic_input', 'mininec.Medium.as_mininec'):
+        g = m.func(q)
+        ev = Evaluator(g)
+        em = ev.emissions()
+        paths = {}
+        for (t, conds, il, node, pconds) in em:
+            paths.setdefault(pconds, set())
+            for p_ in t:
+                if p_[0] == 'conv' and p_[2] is not None:
+                    a_ = arg_text(p_[2])
+                    for attr in want:
+                        if a_ and attr in a_:
+                            paths[pconds].add(attr)
+        for attr, guard in want.items():
+            bad = []
+            n_paths = 0
+            for pc, emitted in paths.items():
+                gv = [b for (t_, b) in pc if t_ == guard and isinstance(b, bool)]
+                # a path on which the guard is not tested stands for both values of the guard
+                vals = [gv[-1]] if gv else [True, False]
+                n_paths += 1
+                for val in vals:
+                    if val != (attr in emitted):
+                        bad.append((pc + ((guard, val),) if not gv else pc, attr in emitted))
+            ok = not bad and n_paths >= 2
+            why = '%s written exactly on the paths with `%s` (%d paths)' % (attr, guard, n_paths)
+            if bad:
+                pc, em_ = bad[0]
+                why = ('%s is %s on the path %s although `%s` is %s: the answers do not match the prompts '
+                       'for that medium' % (attr, 'written' if em_ else 'NOT written',
+                                            ['%s=%s' % (t_, b) for t_, b in pc if isinstance(b, bool)],
+                                            guard, not em_))
+            ck.ob('R-SIB.media-prompts', '%s|%s' % (q, attr), ok, g.loc(), why)
     ck.undecided += ['true prompt order of the BASIC program', 're-reading the answers as MININEC would']
